@@ -417,6 +417,9 @@ func runC14(rec *vkit.Recorder, c *c14Case) []vkit.Violation {
 							add("C14/samples-per-metric", "after scrape %d: job %s metric %s missing, model %d/%d", i, job, k, w[0], w[1])
 						}
 					}
+					if sumTot != int64(got.Total) {
+						add("C14/per-metric-sum-total", "after scrape %d: job %s per-metric totals add up to %d, the job's total says %v", i, job, sumTot, got.Total)
+					}
 					if sumScr != int64(got.ScrapedTotal) {
 						add("C14/per-metric-sum", "after scrape %d: job %s per-metric scraped counts add up to %d, total says %v", i, job, sumScr, got.ScrapedTotal)
 					}
